@@ -54,7 +54,9 @@ type Object struct {
 type PtrV struct {
 	Obj  *Object
 	Path []int
-	// Fn is set for pointers to functions/globals that are not heap cells.
+	// Cond, when set, is the condition under which the pointer is non-nil (optional message
+	// fields of rows read from a table keep their presence symbolic until it matters).
+	Cond *smt.Term
 }
 
 type StructV struct{ F []Value }
